@@ -351,6 +351,14 @@ def run(rep: Report, repo: Repo, tier: str) -> None:
     from .c12 import rule_prefix_default
     with rep.isolated():
         rule_prefix_default(rep, repo, "C16-R11")
+    # input.follow_symlinks / input.auto_exclude_directories_without_cmake / input.recursive are consulted where documented
+    with rep.isolated():
+        fsrules.rule_symlinked_subdirs(rep, repo, "C16-R12")
+    with rep.isolated():
+        fsrules.rule_recursion_switch(rep, repo, "C16-R13")
+    from . import tables as _tb
+    with rep.isolated():
+        _tb.rule_no_option_rewrite(rep, repo, "C16-R14")
 
 
 def rule_output_dir_resolution(rep: Report, repo: Repo, rule: str) -> None:
